@@ -573,8 +573,15 @@ class Config:
             path.prog_temps = saved
             path.prog_vals = saved_vals
             if temps:
-                ids = {id(t) for t in temps}
-                path.pc = [p for p in path.pc if id(p) not in ids]
+                # remove exactly the entries that were appended (one occurrence per temp, from the end): a
+                # clause may evaluate to the very term object a branch condition already put on the pc
+                pc = list(path.pc)
+                for t in reversed(temps):
+                    for idx in range(len(pc) - 1, -1, -1):
+                        if pc[idx] is t:
+                            del pc[idx]
+                            break
+                path.pc = pc
         if dead:
             path.die_after = len(out)
         return out
@@ -612,6 +619,16 @@ class Config:
         c2 = self.contract_for(path, key, f)
         if c2 is not None:
             return self.apply_contract(path, c2, f, args, kwargs)
+        # contract kwarg `stubs={callable: Callback}` also replaces a repo function outside the kernel
+        # (e.g. the crypto toolbox) by a recorded callback, like it does for library functions
+        stubs = getattr(self.top, 'extra', {}).get('stubs')
+        if stubs and f.native is not None and f.closure is None:
+            try:
+                cb = stubs.get(f.native)
+            except TypeError:
+                cb = None
+            if cb is not None:
+                return path.call(self.fresh(path, cb, cb.name), args, kwargs, node)
         if self.may_inline(key, f):
             path.inlined.add(key)
             return path.run_func(f, args, kwargs)
